@@ -89,6 +89,13 @@ func (m *Model) ListWasteRecords(start, count int) []*traits.WasteRecord {
 	m.mu.Lock()
 	defer m.mu.Unlock()
 	var wasteRecords []*traits.WasteRecord
+	// start comes from a client supplied page token, it may lie beyond the records we have
+	if start > len(m.allWasteRecords) {
+		start = len(m.allWasteRecords)
+	}
+	if start < 0 {
+		start = 0
+	}
 	// reverse to retrieve the latest wasteRecords first
 	for i := start - 1; i >= 0; i-- {
 		wasteRecords = append(wasteRecords, m.allWasteRecords[i])
